@@ -4,6 +4,16 @@ import ecref as E
 R = E.R
 
 
+def limb_values(rng):
+    """evaluations whose 64-bit limb structure matters to limb-wise code: one-word values with the top bits set,
+    all-ones limbs followed by zero limbs, single high bytes, and the same in Montgomery form"""
+    rinv = pow(1 << 256, -1, R)
+    base = [(1 << 63), (1 << 64) - 1, 0xf800000000000000, 0xfff8000000000000, 0xff00000000000000, 0x8100000000000000,
+            (1 << 128) - 1, (1 << 192) - 1, (1 << 64), (1 << 128), ((1 << 64) - 1) << 64, 32768, 0x7fffffff, 1 << 95]
+    v = rng.choice(base)
+    return v if rng.random() < 0.8 else v * rinv % R
+
+
 def poly_spec(rng, kind=None):
     """returns (spec, dense?)"""
     k = kind or rng.choice(["z", "c", "u", "s", "s", "s", "r", "max", "u255", "s2"])
@@ -14,13 +24,13 @@ def poly_spec(rng, kind=None):
     if k == "max":
         return "c:%x" % (R - 1), True
     if k == "u":
-        return "u:%d:%x" % (rng.randrange(256), rng.choice([1, R - 1, rng.randrange(R)])), False
+        return "u:%d:%x" % (rng.randrange(256), rng.choice([1, R - 1, rng.randrange(R), limb_values(rng)])), False
     if k == "u255":
         return "u:255:%x" % rng.randrange(1, R), False
     if k == "s":
         m = rng.randrange(1, 6)
         idx = rng.sample(range(256), m)
-        return "s:" + ",".join("%d=%x" % (i, rng.choice([rng.randrange(R), R - 1, 1, rng.randrange(2 ** 16)])) for i in idx), False
+        return "s:" + ",".join("%d=%x" % (i, rng.choice([rng.randrange(R), R - 1, 1, rng.randrange(2 ** 16), limb_values(rng)])) for i in idx), False
     if k == "s2":
         m = rng.randrange(6, 20)
         idx = rng.sample(range(256), m)
